@@ -215,3 +215,41 @@ Theorem C12_sorter_resumable_insert : forall c cr mf st k v,
   end.
 Proof. exact fs_insert_r_agrees. Qed.
 Print Assumptions C12_sorter_resumable_insert.
+
+(* ================= the sorter over a failing chunk storage =================
+   FileSorter.faulty_sorter_run: the sorter writing every chunk through the writer model over a sink that
+   may fail the write of one byte position and/or its flush (one fault plan per chunk), re-opening the
+   chunks with trailer reads that may fail and reading them through loaders that may each fail one block
+   load - all with the injected I/O error.  Whatever the fault plan, the run returns exactly what the
+   fault-free list-level sorter returns, or fails with the injected error (or with an error the merge
+   function itself returned, or outside the 2^64-byte envelope): never a success with other entries, never
+   another error, never a panic of its own (a merge function that panics is not grenad's). *)
+From Grenad.model Require Import Sorter.
+From Grenad.proofs Require Import FileSorter.
+
+Theorem C12_sorter_chunk_storage : forall compress decompress wc,
+  (forall b z, compress (wc_codec wc) (wc_level wc) b = Done z -> decompress (wc_codec wc) z = Done b) ->
+  (forall b, exists z, compress (wc_codec wc) (wc_level wc) b = Done z) ->
+  wc_levels wc < 256 -> 1 <= wc_interval wc -> wc_codec wc <= 5 ->
+  forall mf : mergefn, (forall n k vs v, mf n k vs = Done v -> len v <= U32_MAX) ->
+  forall wfault ofault lfault, (forall a k vs, mf a k vs <> Panic) ->
+  forall c ins, len ins + 1 <= U32_MAX ->
+  (exists e, faulty_sorter_run compress decompress wc wfault ofault lfault c mf ins = Fail e /\
+             (e = EFuel \/ e = EIo IO_INJECTED \/ mf_fails mf e)) \/
+  faulty_sorter_run compress decompress wc wfault ofault lfault c mf ins = sorter_run c mf ins.
+Proof. exact faulty_sorter_refines. Qed.
+Print Assumptions C12_sorter_chunk_storage.
+
+(* non-vacuity: a fault in the second chunk written surfaces as the injected error; a fault plan that is
+   never reached leaves the result untouched *)
+Example C12_sorter_chunk_storage_example :
+  let wc := mk_wcfg 0 0 16 1 1 in
+  let c := mk_scfg 64 false 2 48 in
+  let ins := [([3], [1]); ([1], [2]); ([3], [3]); ([2], [4]); ([1], [5])] in
+  faulty_sorter_run compress_none decompress_none wc (fun n => if n =? 1 then Some (20, false) else None) (fun _ _ => false) (fun _ _ => None) c mf_concat ins
+    = Fail (EIo IO_INJECTED) /\
+  faulty_sorter_run compress_none decompress_none wc (fun _ => None) (fun _ _ => false) (fun n i => if (n =? 4) && (i =? 0) then Some 1 else None) c mf_concat ins
+    = Fail (EIo IO_INJECTED) /\
+  faulty_sorter_run compress_none decompress_none wc (fun n => if n =? 1 then Some (100000, false) else None) (fun _ _ => false) (fun _ _ => Some 1000) c mf_concat ins
+    = Done [([1], [2; 5]); ([2], [4]); ([3], [1; 3])].
+Proof. cbv zeta. split; [vm_compute; reflexivity|]. split; vm_compute; reflexivity. Qed.
